@@ -426,14 +426,36 @@ def payload_text(d, tags_out, rename=None):
     return '\n'.join(lines) + '\n', origins
 
 
-def annotate(repo, contracts, out, vacuity=False):
+def scope_of(head):
+    """the function a directive is about (None for file-level directives)"""
+    m = re.match(r'fn\s+(.+?)(?:\s+->\s+\w+)?$', head)
+    if m:
+        return m.group(1).strip()
+    m = re.match(r'(?:attr|underscore-params)\s+(.+)$', head)
+    if m:
+        return m.group(1).strip()
+    m = re.match(r'in\s+(.+?)\s+(?:before-stmt|after-stmt|after|before|closure)\s+"', head)
+    if m:
+        return m.group(1).strip()
+    m = re.match(r'in\s+(.+?)\s+(?:before-tail|body-start)$', head)
+    if m:
+        return m.group(1).strip()
+    m = re.match(r'(?:replace(?:-ws)?|hoist)\s.*\sin\s+([^"]+)$', head)
+    if m:
+        return m.group(1).strip()
+    return None
+
+
+def annotate(repo, contracts, out, vacuity=False, demote=()):
     global BASELINE_SIGS
     bs = os.path.join(os.path.dirname(os.path.abspath(contracts[0])), 'baseline_sigs.json') if contracts else None
     BASELINE_SIGS = json.load(open(bs)) if bs and os.path.exists(bs) else {}
     directives = parse_contracts(contracts)
     jobs = {}
     clauses = {}
-    notes = dict(normalisations=[], external_body=[], wrapped=[], under_contract=[], lost_optional=[], fmt_helpers=[])
+    notes = dict(normalisations=[], external_body=[], wrapped=[], under_contract=[], lost_optional=[], fmt_helpers=[],
+                 lost={}, lost_fns=[], demoted=sorted(demote))
+    demoted_done = set()
     fmt_files = set()
     hoisted = {}
     cur = None
@@ -442,6 +464,17 @@ def annotate(repo, contracts, out, vacuity=False):
         head = d['head']
         if cur is not None:
             cur.last_rename = None
+        scope = scope_of(head)
+        if scope is not None and scope in notes['lost_fns']:
+            continue
+        if scope is not None and scope in demote:
+            # the function fell out of the verifier's reach in an earlier pass of this run: keep only its contract
+            # (now an assumption, reported as such) and drop every in-body directive
+            if not (head.startswith('fn ') or head.startswith('attr ') or head.startswith('underscore-params ')):
+                mh = re.search(r'\sas\s+(\w+)\s+in\s', head) if head.startswith('hoist') else None
+                if mh:
+                    hoisted[mh.group(1)] = 'unimplemented!()'
+                continue
         try:
             m = re.match(r'file\s+(\S+)$', head)
             if m:
@@ -663,7 +696,23 @@ def annotate(repo, contracts, out, vacuity=False):
             if d.get('optional'):
                 notes['lost_optional'].append(str(e))
                 continue
+            if scope is not None:
+                # local loss: the rest of the crate is still checked; obligations of this function are decided
+                # only if its proof still goes through without the lost piece
+                if head.startswith('fn ') and 'found 0 times' in str(e):
+                    notes['lost_fns'].append(scope)
+                notes['lost'].setdefault(scope, []).append(str(e))
+                mh = re.search(r'\sas\s+(\w+)\s+in\s', head) if head.startswith('hoist') else None
+                if mh:
+                    hoisted.setdefault(mh.group(1), 'unimplemented!()')
+                continue
             raise
+
+    for rel, job in jobs.items():
+        for f in job.fns:
+            if f.qual in demote and f.qual not in notes['external_body'] and f.body_open >= 0:
+                job.add(f.sig_start, f.sig_start, '#[verifier::external_body]\n', [dict(kind='demoted', fn=f.qual)])
+                notes['external_body'].append(f.qual)
 
     if vacuity:
         # vacuity pass: `assert(false)` at the start of every function under contract must FAIL; where it is
@@ -799,6 +848,28 @@ def annotate(repo, contracts, out, vacuity=False):
                            repo_line=rustlex.line_of(src, job.toks[f.fn_tok].pos)))
         fnranges[rel] = fr
     notes['renamed'] = {rel: job.renamed for rel, job in jobs.items() if job.renamed}
+    # functions that exist now but not in the baseline and carry no contract (e.g. an extracted helper): callers see
+    # nothing about their result, so a caller's failing proof is undecided rather than a violation
+    new_fns = {}
+    for rel, job in jobs.items():
+        if job.wrap is None:
+            continue
+        renamed_now = set(v['now'] for v in job.renamed.values())
+        for f in job.fns:
+            if f.qual not in BASELINE_SIGS.get(rel, {}) and f.qual not in renamed_now and f.qual not in notes['under_contract'] \
+                    and job.wrap[0] <= job.toks[f.fn_tok].pos < job.wrap[1]:
+                new_fns[f.name] = f.qual
+    callers = {}
+    for rel, job in jobs.items():
+        for f in job.fns:
+            if f.body_open < 0:
+                continue
+            body = job.src[job.toks[f.body_open].pos:job.toks[f.body_close].end]
+            for nm, q in new_fns.items():
+                if q != f.qual and re.search(r'(?<![A-Za-z0-9_])%s\s*\(' % re.escape(nm), body):
+                    callers.setdefault(f.qual, []).append(q)
+    notes['new_uncontracted'] = sorted(new_fns.values())
+    notes['calls_uncontracted'] = callers
     meta = dict(srcmap=srcmap, fnranges=fnranges, clauses=clauses, notes=notes)
     with open(os.path.join(out, 'annotate.json'), 'w') as fh:
         json.dump(meta, fh, indent=1)
